@@ -21,7 +21,7 @@ from sim.env import SimEnv, UNIT
 
 ID = "C10"
 LEVEL = "exploration"
-QUICK_N = 40000
+QUICK_N = 50000
 THOROUGH_N = 3000000
 CHUNK = 400
 RULE = ("gen(seed): 1-4 addresses over two families (duplicates allowed), per-address outcome "
@@ -31,7 +31,9 @@ RULE = ("gen(seed): 1-4 addresses over two families (duplicates allowed), per-ad
         "constructor failure at a chosen socket ordinal, late/order/defer tapes, permutation "
         "of _Connector.streams. non-trivial = >= 2 connection attempts were made AND (two "
         "attempts were in flight at the same instant, or an attempt followed a failed one, or a "
-        "timer (0.3 s or overall) decided while an attempt was in flight); distinct = distinct "
+        "timer (0.3 s or overall) decided while an attempt was in flight), OR the caller's "
+        "cancellation (task.cancel k iterations after a chosen instant / asyncio.wait_for expiry, "
+        "in 22% of scenarios) took effect while an attempt was in flight; distinct = distinct "
         "scenario hash")
 COMPONENTS = {
     "real": ["tornado.tcpclient.TCPClient/_Connector", "tornado.netutil.DefaultLoopResolver",
@@ -51,6 +53,10 @@ ASSUMPTIONS = [
     "a bind() error that is raised to the caller of connect() is an accepted way to complete "
     "(tcpclient documents 'fail loudly if unable to use the IP/port'); a bind error that does "
     "not reach the caller is an attempt that failed synchronously",
+    "caller cancellation (task.cancel(), asyncio.wait_for expiry) is covered for the second "
+    "sentence of the property only: 'every other socket it opened is closed' and 'at most one "
+    "attempt per family' are stated without condition, whereas 'completes with the first "
+    "success / an error / TimeoutError' cannot hold of a cancelled await and is not checked there",
 ]
 
 AF4 = int(_socket.AF_INET)
@@ -191,10 +197,24 @@ def gen(rng, tier, index):
         tapes["order"] = [rng.choice([0, 1, 2, 64, 65]) for _ in range(rng.randint(1, 6))]
     if rng.random() < 0.30:
         tapes["defer"] = [rng.choice([0, 1]) for _ in range(rng.randint(1, 8))]
+    perm = rng.choice([0, 0, 1, 2, 3])
+    # ---- the caller gives up: task.cancel() (k loop iterations after instant `at`) or
+    # asyncio.wait_for expiry.  Drawn last so that the other fields of a seed do not move.
+    cancel = None
+    if rng.random() < 0.22:
+        dd = dns["delay"]
+        cand = [0, 1, 1, 2, 306, 307, 308, 309]
+        for a in addrs:
+            e = dd + a["d"]
+            cand += [e, e, e, e + 1, max(0, e - 1), e + 307, e + 308, e + 309]
+        if T is not None:
+            cand += [max(0, T - 1), T, T + 1]
+        cancel = {"at": rng.choice(cand), "k": rng.choice([0, 0, 1, 1, 2, 3]),
+                  "how": rng.choice([0, 0, 0, 1])}
     return {
         "property": ID, "version": 1,
         "addrs": addrs, "timeout": timeout, "dns": dns, "af": af, "src": src,
-        "ctor_fail": ctor_fail, "perm": rng.choice([0, 0, 1, 2, 3]), "tapes": tapes,
+        "ctor_fail": ctor_fail, "perm": perm, "tapes": tapes, "cancel": cancel,
     }
 
 
@@ -213,6 +233,9 @@ def validate(scn):
         if scn.get("af", 0) not in (0, 4, 6):
             return False
         if scn.get("src", {}).get("ip", 0) not in (0, 4, 6):
+            return False
+        c = scn.get("cancel")
+        if c is not None and not (c["at"] >= 0 and c["k"] >= 0 and c["how"] in (0, 1)):
             return False
         return all(isinstance(i, int) for i in scn.get("ctor_fail", []))
     except Exception:
@@ -247,6 +270,7 @@ class _Att:
 
 
 def run(scn, full_log=False):
+    import asyncio
     import datetime
     from tornado.iostream import IOStream
     from tornado.tcpclient import TCPClient
@@ -265,6 +289,7 @@ def run(scn, full_log=False):
     src = scn.get("src") or {}
     ctor_fail = set(scn.get("ctor_fail", ()))
     perm = scn.get("perm", 0)
+    cn = scn.get("cancel")
 
     # resolved list as the connector will see it
     script = {}
@@ -430,21 +455,29 @@ def run(scn, full_log=False):
                 kw["source_ip"] = "127.0.0.1" if src["ip"] == 4 else "::1"
             if src.get("port"):
                 kw["source_port"] = src["port"]
+            coro = client.connect(HOST, PORT, timeout=tmo_arg, **kw)
+            if cn is not None and cn["how"] == 1:
+                coro = asyncio.wait_for(coro, cn["at"] * UNIT)
             try:
-                stream = await client.connect(HOST, PORT, timeout=tmo_arg, **kw)
+                stream = await coro
             except BaseException as e:  # noqa: BLE001 - classified below
-                st["done"] = (nseq(), loop._now, "timeout" if isinstance(e, TimeoutError) else "error",
-                              type(e).__name__)
+                if isinstance(e, asyncio.CancelledError) or (
+                        cn is not None and cn["how"] == 1 and isinstance(e, TimeoutError)
+                        and isinstance(e.__cause__, asyncio.CancelledError)):
+                    kind = "cancelled"  # the caller gave up (task.cancel / wait_for expiry)
+                elif isinstance(e, TimeoutError):
+                    kind = "timeout"
+                else:
+                    kind = "error"
+                st["done"] = (nseq(), loop._now, kind, type(e).__name__)
                 st["exc"] = e
-                log.ev("result", st["done"][2], st["done"][3])
-                if not isinstance(e, Exception):
-                    raise
+                log.ev("result", kind, st["done"][3])
                 return None
             st["done"] = (nseq(), loop._now, "stream", None)
             st["stream"] = stream
             # reach only (not a rule): timers still armed when a stream has been returned
             n_t = sum(1 for h in loop._scheduled if not h._cancelled and h is not st.get("mark_h"))
-            if n_t:
+            if n_t and cn is None:
                 probe("timers_armed_after_stream_result", n_t)
             log.ev("result", "stream", getattr(getattr(stream, "socket", None), "_fd", None))
             return stream
@@ -464,6 +497,17 @@ def run(scn, full_log=False):
             client = TCPClient()
             w = loop.create_task(waiter(client), name="waiter")
             st["waiter"] = w
+            if cn is not None and cn["how"] == 0:
+                async def canceller():
+                    if cn["at"]:
+                        await asyncio.sleep(cn["at"] * UNIT)
+                    for _ in range(cn["k"]):
+                        await asyncio.sleep(0)
+                    if not w.done():
+                        st["cancel"] = (nseq(), loop._now)
+                        log.ev("cancel")
+                        w.cancel()
+                loop.create_task(canceller(), name="canceller")
             stream = await w
             if stream is None:
                 return
@@ -489,12 +533,14 @@ def run(scn, full_log=False):
         status = env.run(main())
 
         # ==== oracle =========================================================
+        done = st["done"]
         taint = "plain"
-        if any(a.res == "ctor" for a in atts):
+        if done is not None and done[2] == "cancelled":
+            taint = "cancelled"
+        elif any(a.res == "ctor" for a in atts):
             taint = "ctor_fail"
         elif any(a.res == "bind" for a in atts):
             taint = "bind_fail"
-        done = st["done"]
         INF = float("inf")
         started = [a for a in atts if a.start is not None]
         n_ok_noticed = [a for a in atts if a.n_res == "ok"]
@@ -609,6 +655,22 @@ def run(scn, full_log=False):
                         probe("timeout_fired_with_attempt_in_flight")
                     if not atts:
                         probe("timeout_during_dns")
+            elif d_kind == "cancelled":
+                # The caller gave up.  The first sentence of the property (which result) does
+                # not apply; what remains is: completed once, every socket closed (below),
+                # one attempt per family (below), nothing crashed (below).
+                probe("caller_cancelled")
+                if not atts:
+                    probe("cancelled_before_first_attempt")
+                if any(a.start is not None and a.start <= d_t and (a.end is None or a.end >= d_t)
+                       and (a.c_t is None or a.c_t >= d_t) for a in atts):
+                    probe("cancelled_with_attempt_in_flight")
+                if any(a.n_res == "ok" and a.n_seq > d_seq for a in atts):
+                    probe("success_after_cancel")
+                if any(a.n_res == "ok" and a.n_seq < d_seq for a in atts):
+                    probe("cancelled_after_success_seen")
+                if any(a.start is not None and a.start > d_t for a in atts):
+                    probe("attempt_started_after_cancel")
             else:
                 # an error other than TimeoutError
                 exc = st.get("exc")
@@ -675,9 +737,18 @@ def run(scn, full_log=False):
                     leaked.append(a)
             if leaked:
                 what = ", ".join(f"socket {a.i} (fd {a.fd}, {a.key}, outcome {a.res})" for a in leaked)
-                bad("leak.socket", f"still open at quiescence: {what}; connect result: "
-                    f"{done[2] if done else 'pending'}",
-                    f"leak.socket/{taint}")
+                rule = "leak.socket"
+                if taint == "cancelled":
+                    # separate rules (the shrinker keeps the rule): which kind of socket the
+                    # abandoned connect left behind
+                    a = leaked[0]
+                    if a.n_res == "ok":
+                        rule = "leak.cancelled_result_lost" if a.n_seq < done[0] \
+                            else "leak.cancelled_late_success"
+                    elif in_flight_forever(a):
+                        rule = "leak.cancelled_in_flight"
+                bad(rule, f"still open at quiescence: {what}; connect result: "
+                    f"{done[2] if done else 'pending'}", f"{rule}/{taint}")
             if len(atts) != len(net.created):
                 bad("harness.untracked_socket", "socket created outside the hook")
 
@@ -688,9 +759,11 @@ def run(scn, full_log=False):
                     f"log.callback_exception/{r[3]}/{taint}")
                 break
         for m, e in env.loop_errors:
-            bad("log.callback_exception", f"asyncio handler: {str(m)[:60]} [{e}]",
-                f"log.callback_exception/{e}/{taint}")
-            break
+            if e == "InvalidStateError" or str(m).startswith("Exception in callback"):
+                bad("log.callback_exception", f"asyncio handler: {str(m)[:60]} [{e}]",
+                    f"log.callback_exception/{e}/{taint}")
+                break
+            probe("loop_error_other")  # e.g. an abandoned resolver task failing after a cancel
 
         # ---- probes / reach
         by_start = sorted(started, key=lambda a: (a.start, a.i))
@@ -729,7 +802,8 @@ def run(scn, full_log=False):
             probe("streams_permuted")
         timer_decided = probes.get("secondary_started_by_timer", 0) > 0 or \
             probes.get("timeout_fired_with_attempt_in_flight", 0) > 0
-        nontrivial = len(started) >= 2 and (max_conc >= 2 or retry or timer_decided)
+        nontrivial = (len(started) >= 2 and (max_conc >= 2 or retry or timer_decided)) or \
+            probes.get("cancelled_with_attempt_in_flight", 0) > 0
         stt = env.stats()
         stt["probes"].update(probes)
         outcome = {"status": status, "result": list(done[2:]) if done else None,
